@@ -17,7 +17,8 @@ EXPLANATION = (
     "(operator only at order 0; shift by the ground-state expectation value of the same order "
     "only for n_create == n_annihilate). R05a: left factors use l_isr/'left'/block[0], right "
     "factors r_isr/'right'/block[1]; mixed block (l_block[0], r_block[1]); default operator "
-    "string count('p') creators / count('h') annihilators of the minimal space.")
+    "string count('p') creators / count('h') annihilators of the minimal space. D1/D2/R04a/R04c/R02c "
+    "on the intermediate-state and norm-factor layers the expressions are built from.")
 ASSUMPTIONS = ["equality with explicit matrix elements is not decided"]
 
 PR = "properties:Properties."
@@ -154,3 +155,27 @@ def run(ctx):
         deriv.d5_operator(ctx, "D5")
     if ctx.want("R05a"):
         r05a(ctx)
+    # layers the property expressions are built from
+    if ctx.want("D1"):
+        deriv.d1(ctx, "D1", "intermediate_states", 9)
+    if ctx.want("D2"):
+        deriv.d2(ctx, "D2", "intermediate_states", 6)
+    if ctx.want("R04a"):
+        c04.r04a(ctx)
+    if ctx.want("R04c"):
+        c04.r04c(ctx)
+    if ctx.want("R02c"):
+        from . import c02
+        c02.r02c(ctx)
+        c02.taylor_builder(ctx, "R02c", c04.IS + "expand_S_taylor", "-0.5")
+    # ground-state layer (wavefunctions, norm factors) every expression is built from
+    from . import c02
+    if ctx.want("D1"):
+        deriv.d1(ctx, "D1", "groundstate", 6)
+    if ctx.want("D2"):
+        deriv.d2(ctx, "D2", "groundstate", 6)
+    if ctx.want("D3"):
+        c02.d3_psi(ctx)
+        c02.d3_operator(ctx)
+    if ctx.want("R02a"):
+        c02.r02a(ctx)
